@@ -14,7 +14,7 @@ from fractions import Fraction
 from . import sched
 
 
-def section(ctx, env, trials):
+def section(ctx, env, trials, key="C08"):
     m, conv, rng = env.m, env.conv, ctx.rng
     U = m.Unit._by_name
     Q = m.Quantity
@@ -76,11 +76,11 @@ def section(ctx, env, trials):
                     ctx.count("concurrent/incomplete")
                     return
                 if not agree(got, ok):
-                    ctx.violation(f"C08:concurrent:{name}:answer-differs-from-the-sequential-one", f"{name}: thread {tid} got {got}, asked alone it gets one of {ok}", case)
+                    ctx.violation(f"{key}:concurrent:{name}:answer-differs-from-the-sequential-one", f"{name}: thread {tid} got {got}, asked alone it gets one of {ok}", case)
             for label, t, ok in after:
                 got = outcome(t)()
                 if not agree(got, ok):
-                    ctx.violation(f"C08:concurrent:{name}:later-answer-is-wrong", f"{name}: after both threads finished, {label} gives {got}, the declarations say {ok}", case)
+                    ctx.violation(f"{key}:concurrent:{name}:later-answer-is-wrong", f"{name}: after both threads finished, {label} gives {got}, the declarations say {ok}", case)
 
         if only is None:
             sched.random_schedules(make, None, files, check, rng, 1, set())
